@@ -418,7 +418,7 @@ func (ch c13) Run(c *core.Ctx) {
 	if c.Batch == 0 {
 		c.Count("exhaustive_parts", 1)
 	}
-	nrand := 6000
+	nrand := 30000
 	if c.Tier == "thorough" {
 		nrand = 400000
 	}
